@@ -3,15 +3,19 @@
 package verifsim
 
 import (
+	"net/http"
 	"sort"
+	"strconv"
 	"strings"
+	"time"
 )
 
 // Browser is a user agent that keeps cookies per host and follows redirects.
 type Browser struct {
 	ID   int
-	Jar  map[string]map[string]string // host -> name -> value
-	Hdr  map[string]string            // extra request headers (chain selection)
+	Jar  map[string]map[string]string    // host -> name -> value
+	Exp  map[string]map[string]time.Time // host -> name -> end of the cookie's lifetime (Max-Age / Expires), if it has one
+	Hdr  map[string]string               // extra request headers (chain selection)
 	w    *World
 	Hops int
 	// Noise: other cookies sent in front of the jar's (raw text, may contain valueless crumbs)
@@ -32,6 +36,7 @@ func (w *World) NewBrowser(id int) *Browser {
 }
 
 func (b *Browser) cookieHeader(host string) string {
+	b.purge(host)
 	jar := b.Jar[host]
 	names := make([]string, 0, len(jar))
 	for n := range jar {
@@ -47,6 +52,26 @@ func (b *Browser) cookieHeader(host string) string {
 		return b.Noise + "; " + own
 	}
 	return own
+}
+
+// purge drops the cookies of host whose Max-Age / Expires has passed on the simulated clock (a user agent that honours
+// cookie lifetimes: a session cookie with a lifetime of its own ends the browser's session when it runs out, whatever
+// the store still holds).
+func (b *Browser) purge(host string) {
+	now := time.Now()
+	for n, t := range b.Exp[host] {
+		if !now.Before(t) {
+			delete(b.Exp[host], n)
+			delete(b.Jar[host], n)
+			b.w.probe("browser-cookies-expired-by-lifetime")
+		}
+	}
+}
+
+// SessionCookie is the value of the named cookie the browser would send to host now.
+func (b *Browser) SessionCookie(host, name string) string {
+	b.purge(host)
+	return b.Jar[host][name]
 }
 
 // ParsedCookie is the result of an independent RFC 6265 Set-Cookie parse.
@@ -104,9 +129,31 @@ func (b *Browser) absorb(host string, rec *CheckRec) {
 		}
 		if ma, ok := pc.Attrs["max-age"]; ok && (ma == "0" || strings.HasPrefix(ma, "-")) {
 			delete(b.Jar[host], pc.Name)
+			delete(b.Exp[host], pc.Name)
 			continue
 		}
 		b.Jar[host][pc.Name] = pc.Value
+		delete(b.Exp[host], pc.Name)
+		// RFC 6265 5.3: Max-Age has precedence over Expires
+		var exp time.Time
+		if ma, ok := pc.Attrs["max-age"]; ok {
+			if n, err := strconv.Atoi(ma); err == nil {
+				exp = time.Now().Add(time.Duration(n) * time.Second)
+			}
+		} else if ex, ok := pc.Attrs["expires"]; ok {
+			if t, err := http.ParseTime(ex); err == nil {
+				exp = t
+			}
+		}
+		if !exp.IsZero() {
+			if b.Exp == nil {
+				b.Exp = map[string]map[string]time.Time{}
+			}
+			if b.Exp[host] == nil {
+				b.Exp[host] = map[string]time.Time{}
+			}
+			b.Exp[host][pc.Name] = exp
+		}
 	}
 }
 
